@@ -625,10 +625,13 @@ impl Callbacks for Cb {
         }
         let mut uf = UnsafeFinder { tcx, found: Vec::new() };
         tcx.hir_walk_toplevel_module(&mut uf);
-        let no_std = tcx.hir_krate_attrs().iter().any(|a| a.has_name(rustc_span::sym::no_std));
+        // a #![no_std] crate does not load `std` at all
+        let no_std = !tcx.crates(()).iter().any(|c| tcx.crate_name(*c).as_str() == "std");
+        let extern_crates: Vec<String> = tcx.crates(()).iter().map(|c| tcx.crate_name(*c).to_string()).collect();
         let out = obj(&[
             ("crate", esc(&krate)),
             ("no_std", no_std.to_string()),
+            ("extern_crates", strs(&extern_crates)),
             ("fns", arr(&fns)),
             ("consts", arr(&consts)),
             ("adts", arr(&adts)),
